@@ -235,3 +235,35 @@ def slice_switch(ftoks, lb, rb, switch_expr, keep_label, log, fn):
                           Tok('op', ';', -1), Tok('ws', ' ', -1)]
         log.fire('N8', fn)
     return out, labels
+
+
+# ---------------------------------------------------------------- N7: redirect calls to functions under contract
+
+def redirect_member_call(ftoks, body_lo, body_hi, method, wrapper, log, fn):
+    """N7: `[this->]method(args)` -> `wrapper(this[, args])` inside toks[body_lo:body_hi]"""
+    out = list(ftoks)
+    k = body_hi
+    n = 0
+    while k > body_lo:
+        t = out[k]
+        if t.kind == 'id' and t.text == method:
+            nx = next_code(out, k)
+            if nx < len(out) and out[nx].text == '(':
+                p = prev_code(out, k)
+                start = k
+                if out[p].text == '->' and out[prev_code(out, p)].text == 'this':
+                    start = prev_code(out, p)
+                elif out[p].text in ('.', '->', '::'):
+                    k -= 1
+                    continue
+                close = match_close(out, nx)
+                has_args = any(is_code(x) for x in out[nx + 1:close])
+                repl = [Tok('id', wrapper, -1), Tok('op', '(', -1), Tok('id', 'this', -1)]
+                if has_args:
+                    repl += [Tok('op', ',', -1), Tok('ws', ' ', -1)]
+                out[start:nx + 1] = repl
+                n += 1
+        k -= 1
+    if n:
+        log.fire('N7', fn, n)
+    return out
